@@ -292,6 +292,21 @@ func laws(c *core.Child, n ast.Node, w *wrapper) *verdict {
 	return nil
 }
 
+// shapeLaws are the laws that remain for a don't-care case: Print returns a
+// string, nothing panics, the AST is not modified.
+func shapeLaws(c *core.Child, n ast.Node) *verdict {
+	snap0 := snapshot(conv(n))
+	p1, v := printNode(c, n, "document")
+	if v != nil {
+		return v
+	}
+	if snap1 := snapshot(conv(n)); snap1 != snap0 {
+		return &verdict{sig: "print:mutates", msg: "Print modified the AST it was given: " + clip(firstLineDiff(snap0, snap1), 400),
+			detail: map[string]interface{}{"printed": clip(p1, 4000), "first_difference": firstLineDiff(snap0, snap1)}}
+	}
+	return nil
+}
+
 func firstLine(s string) string {
 	if i := strings.IndexByte(s, '\n'); i >= 0 {
 		return s[:i]
